@@ -46,7 +46,7 @@ FINDINGS += [
  F("C18", "C18 MillerLoopFixedQ mutates the caller's precomputed lines", "0106fef", "MillerLoopFixedQ / PairFixedQ / PairingCheckFixedQ scaled the caller's precomputed lines in place: a second call with the same lines returned a different value and concurrent callers raced (7 curves)", "C18 pairfixedq bn254 4 5 8 5a7136ad92e8", "ecc/*/pairing.go MillerLoopFixedQ"),
  F("C18", "C18 merkleDamgardHasher aliasing", "16b5b84", "hash.merkleDamgardHasher Sum/State returned the live state slice and Reset/SetState/constructor kept caller slices", "C18 mdhasher bn254 4 2 2 a7201a46bc51", "hash/merkle-damgard.go"),
  # ---- C08
- K("C08", "C08 Vector.ReadFrom allocates the attacker-chosen length", "Vector.ReadFrom / UnmarshalBinary allocate make(Vector, sliceLen) from the 4-byte prefix before reading a single element: a 4-byte input 0xffffffff kills the process (out of memory, not recoverable)", r"^C08 \S+ vecread ", r"^crash:oom", r"^err:short", "ecc/*/f?/vector.go ReadFrom", "C08 bn254_fr vecread ffffffff"),
+ K("C08", "C08 Vector.ReadFrom allocates the attacker-chosen length", "Vector.ReadFrom / UnmarshalBinary allocate make(Vector, sliceLen) from the 4-byte prefix before reading a single element: a 4-byte input 0xffffffff kills the process (out of memory, not recoverable)", r"^C08 \S+ vecread ", r"^crash:(oom|timeout)", r"^err:short", "ecc/*/f?/vector.go ReadFrom", "C08 bn254_fr vecread ffffffff"),
  F('C08', 'C08 Vector.AsyncReadFrom uint32 overflow', '0c57d15', 'Vector.AsyncReadFrom computed sliceLen*Bytes in uint32: success on truncated input, then a goroutine panic', "", ""),
  # ---- C07
  K("C07", "C07 NoSubgroupChecks skips the on-curve check (uncompressed)", "with NoSubgroupChecks() the uncompressed branch of setBytes performs no on-curve check: an off-curve point is accepted, also inside slices (documented as a trusted-input mode; behavioural change, not repaired)", r"^C07 (dec \S+ \S+ 0|sdec \S+ 0) ", r"^(ok |g[12]s:)", r"err:(offcurve|batch)", "ecc/*/marshal.go setBytes uncompressed branch", "C07 dec bn254 G1 0 <x=1,y=3>"),
